@@ -45,6 +45,20 @@
 (* the real code but not predicted here.  The six Fix* constants switch     *)
 (* between the code before the repair commits 1c05a04, b052c11, 29901b5,    *)
 (* 72c6cba, ccb0066, 27c13f3 (FALSE) and the code as it is now (TRUE):      *)
+(* Round 5: the stream handed to WithLayerAddTar has a form (field f of the  *)
+(* option: "" plain tar, already compressed gzip / gzipalt / zstd / xz /     *)
+(* bzip2, "empty" = no entries, "notrailer" = no end-of-archive blocks).     *)
+(* WithLayerAddTar digests the stream as it comes (io.TeeReader in front of  *)
+(* archive.Compress), so the diff id is the digest of the layer with the     *)
+(* compression its media type announces removed whatever the stream is; what *)
+(* the form changes: the per-file walk (archive/tar) of an added layer whose *)
+(* payload is a compressed stream fails ("unexpected EOF"), and an added tar *)
+(* without entries is "emptied" (deleted) by any per-file step.  Gigo: the   *)
+(* caller has a compressed stream announced as an uncompressed tar (media    *)
+(* type argument or WithLayerCompression(none)): the stored bytes carry a    *)
+(* compression magic the media type denies by the caller's own doing -       *)
+(* outside the property, the generator flags such programs and the runner    *)
+(* does not drive them.                                                      *)
 (*   FixData   dagPut index branch takes the child's body for `data`        *)
 (*   FixWriter the per-file rewrite compresses by the current media type    *)
 (*   FixAdded  a layer added by WithLayerAddTar carries its descriptor as   *)
@@ -64,7 +78,7 @@
 EXTENDS Integers, Sequences, SequencesExt, FiniteSets, TLC
 
 CONSTANTS Images,    \* source images: [n, hist, shape, fam, comp, data, refs, alg, ut]  (ut: every time stamp is one instant)
-          Options,   \* option records [k, a, v, i] a program is built from
+          Options,   \* option records [k, a, v, i, s, f] a program is built from (f: form of the stream of AddLayer)
           MaxProg,   \* maximal program length
           Places,    \* subset of {"same-digest", "same-tag", "same-replace", "cross"}
           SrcKinds,  \* subset of {"reg", "dir"}: the source is a registry or an OCI layout
@@ -95,7 +109,9 @@ HE(name)      == [e |-> TRUE, id |-> name]     \* empty_layer entry ("a1", "a2":
 NewDesc(has, dig, t) == [has |-> has, dig |-> dig, t |-> t]   \* has: MediaType # "", dig: Digest # ""
 NoDesc        == NewDesc(FALSE, FALSE, Tok("", 0, "", "", "", TRUE))
 \* inl: the descriptor carries inline data, so BlobGet serves the layer from memory, not from the repository
-DagLayer(mod, desc, nd, uc, base) == [mod |-> mod, desc |-> desc, nd |-> nd, uc |-> uc, base |-> base, inl |-> FALSE]
+\* form: what the stream of a layer added by WithLayerAddTar was ("" for every other layer)
+DagLayer(mod, desc, nd, uc, base) == [mod |-> mod, desc |-> desc, nd |-> nd, uc |-> uc, base |-> base, inl |-> FALSE, form |-> ""]
+ZForms == {"gzip", "gzipalt", "zstd", "xz", "bzip2"}      \* the stream is a compressed tar, not a tar
 
 CompOf(im, i) == IF im.comp = "mixed" THEN <<"gzip", "zstd", "none">>[((i - 1) % 3) + 1] ELSE im.comp
 LayerId(tag, i) == tag \o <<"1", "2", "3">>[i]
@@ -210,6 +226,14 @@ StaticNoop(o) ==
        [] RegC(o) -> \A c \in 1..Len(Plats(img)) : ~ChgC(o, Plats(img)[c], Child(img, Plats(img)[c]))
        [] OTHER -> TRUE
 \* (of several WithData options only the last one counts)
+\* the compression WithLayerAddTar applies for its media type argument ("" = gzip of the manifest's family)
+AddComp(mt) == CASE mt = "application/vnd.oci.image.layer.v1.tar+zstd" -> "zstd"
+                 [] mt \in {"application/vnd.oci.image.layer.v1.tar", "application/vnd.docker.image.rootfs.diff.tar"} -> "none"
+                 [] OTHER -> "gzip"
+\* garbage in: a compressed stream that the caller has announced as an uncompressed tar
+Gigo == \E j \in 1..Len(prog) : /\ prog[j].k = "AddLayer" /\ prog[j].f \in ZForms
+                                /\ \/ AddComp(prog[j].v) = "none"
+                                   \/ \E q \in 1..Len(prog) : prog[q].k = "Compress" /\ prog[q].a = "none"
 NoopProg == \A j \in 1..Len(prog) :
               (prog[j].k = "Data" /\ (\E q \in (j + 1)..Len(prog) : prog[q].k = "Data")) \/ StaticNoop(prog[j])
 
@@ -261,9 +285,6 @@ Rebase(ch) ==
 
 AnnoGroup(o) == CASE o.k = "LabelToAnnotation" -> {"l2a"} [] o.k = "AnnotationBase" -> {"base"}
                   [] o.k = "Annotation" /\ o.a = "[*]x" -> {"x"} [] OTHER -> {}
-AddComp(mt) == CASE mt = "application/vnd.oci.image.layer.v1.tar+zstd" -> "zstd"
-                 [] mt \in {"application/vnd.oci.image.layer.v1.tar", "application/vnd.docker.image.rootfs.diff.tar"} -> "none"
-                 [] OTHER -> "gzip"
 \* one manifest step on one image manifest (not a list)
 MStep(ch, o) ==
   IF Failed(ch) THEN ch
@@ -271,8 +292,9 @@ MStep(ch, o) ==
               IF ch.mod = "deleted" \/ (o.a # "" /\ ch.plat # "p1") THEN ch
               ELSE LET c == AddComp(o.v)        \* the media type argument: "" = gzip of the manifest's family
                        t == Tok("NEW", 0, c, c, ch.malg, TRUE)
-                   IN [ch EXCEPT !.dls = Append(@, DagLayer("added", t, IF FixAdded THEN NewDesc(TRUE, TRUE, t) ELSE NoDesc,
-                                                            Diff("NEW", 0), FALSE))]
+                   \* ucDigest = digest of the stream as handed in = the layer without the compression added here
+                   IN [ch EXCEPT !.dls = Append(@, [DagLayer("added", t, IF FixAdded THEN NewDesc(TRUE, TRUE, t) ELSE NoDesc,
+                                                             Diff("NEW", 0), FALSE) EXCEPT !.form = o.f])]
          [] o.k = "RmIndex" ->
               IF img.shape # "image" THEN Fail(ch, "remove layer by index requires v2 image manifest")
               ELSE LET at == NthOrig(ch.dls, o.i, 1)
@@ -350,9 +372,12 @@ LayerWalk(dl, sL, sF) ==
       a == IF sL = <<>> THEN <<dl, "nil">> ELSE FoldL(LStep, <<dl, "fresh">>, sL)
       dlA == a[1] rdrA == a[2]
       \* per file steps
-      effs == {FileEff(sF[j], dl.desc.id) : j \in 1..Len(sF)}
+      \* (a tar without entries: no file for a step to act on, and the walk ends with `empty` still true)
+      effs == IF dl.form = "empty" THEN {} ELSE {FileEff(sF[j], dl.desc.id) : j \in 1..Len(sF)}
       doF == sF # <<>>
-      empty == "all" \in effs
+      empty == "all" \in effs \/ (doF /\ dl.form = "empty")
+      \* archive/tar on a payload that is itself a compressed stream (one level is removed by the media type only)
+      formErr == doF /\ dl.form \in ZForms
       changed == effs \ {"nop"} # {}
       cur == IF dlA.nd.has THEN dlA.nd.t ELSE dlA.desc
       \* a deleted file is skipped by archive/tar with Seek when the reader is the blob reader itself (uncompressed layer,
@@ -373,6 +398,7 @@ LayerWalk(dl, sL, sF) ==
               ELSE IF Wrapped(rdrA) THEN "usedwrapped" ELSE "used"
       push == dlB.mod \in {"added", "replaced"} /\ rdrB # "nil"
   IN IF (sL # <<>> \/ doF) /\ ~srcOK THEN [dl |-> dl, err |-> "failed to get blob"]
+     ELSE IF formErr THEN [dl |-> dl, err |-> "unexpected EOF"]
      ELSE IF seekErr THEN [dl |-> dl, err |-> "unable to seek to arbitrary position"]
      ELSE IF ~push \/ dlB.mod = "deleted" THEN [dl |-> dlB, err |-> ""]
      ELSE CASE rdrB = "usedwrapped" -> [dl |-> dlB, err |-> "layer digest mismatch"]
